@@ -10,7 +10,7 @@ RULE = ("phase 1: every operation of harness/x_oom.c x allocator class {lib, sq,
         "non-trivial = the fault fired; oracle: result is CIF_MEMORY_ERROR/CIF_ERROR, managed CIF and caller-owned objects dump "
         "unchanged, the repeated call succeeds, no sanitizer report, nothing leaked")
 CLASSES = ["lib", "sq", "icu"]
-MAXK = {"quick": 40, "thorough": 100000}      # quick: the first 40 sites per (operation, class); thorough: all
+MAXK = {"quick": 40, "thorough": 100000}      # quick: the first 40 (library class: 160) sites per (operation, class); thorough: all
 
 
 def generate(seed, tier):
@@ -39,7 +39,8 @@ def expand(reqs, impl, tier):
         if len(t) == 4 and t[3] == "0":
             n = _field(i, "n")
             if n and n.isdigit():
-                for k in range(1, min(int(n), MAXK[tier]) + 1):
+                lim = MAXK[tier] * (4 if t[2] == "lib" else 1)
+                for k in range(1, min(int(n), lim) + 1):
                     out.append("oom %s %s %d" % (t[1], t[2], k))
     return out
 
